@@ -62,20 +62,41 @@ ValidityKey(e) ==
   ELSE IF e.valid = ValidAt(e.I, e.E, t) THEN ""
   ELSE ValidityClass(e.I, e.E, t, e.t[1])
 
+(* rrsig: a signature made during a key life, with the key material as the     *)
+(* standard library holds it (never taken from the DNSKEY under test)          *)
+ExpectedPub(p) == CASE p.kind = "rsa"   -> RSAPublicKey(p.e, p.n)
+                    [] p.kind = "ecdsa" -> ECPublicKey(p.x, p.y, p.len)
+                    [] OTHER            -> p.k
+RrsigKey(e) ==
+  LET po == Parse(e.owner)  ps == Parse(e.signer) IN
+  IF po.st # "ok" \/ ps.st # "ok" \/ ~po.fq \/ ~ps.fq THEN "trace/rrsig-names"
+  ELSE IF e.pubkey # ExpectedPub(e.pub) THEN "keylife/public-key-encoding:" \o e.combo
+  ELSE IF e.keytag # KeyTag(DNSKEYRdata(e.flags, e.proto, e.alg, e.pubkey)) THEN "keylife/rrsig-keytag:" \o e.combo
+  ELSE IF ~e.verified THEN "keylife/verify-rejects-own-key:" \o e.combo
+  ELSE
+    LET f == [tc |-> e.tc, alg |-> e.alg, labels |-> Len(po.labels), origttl |-> e.ttl, exp |-> e.exp, inc |-> e.inc,
+              keytag |-> e.keytag, signer |-> ps.labels] IN
+    IF e.labels # f.labels THEN "keylife/rrsig-labels:" \o e.combo
+    ELSE IF EmitX([i |-> l, kind |-> "rrsig", key |-> "keylife/signature-not-over-rfc4034-octets:" \o e.combo, hash |-> SigHashOf(e.alg),
+                   signed |-> RRSIGInput(f, po.labels, e.class, e.rdatas), sig |-> e.sig, pub |-> e.pub])
+         THEN "" ELSE "trace/emit"
+
 PureKey(e) == CASE e.ev = "keytag"   -> KeytagKey(e)
+                [] e.ev = "rrsig"    -> RrsigKey(e)
                 [] e.ev = "ds"       -> DSKey(e)
                 [] e.ev = "hashname" -> HashKey(e)
                 [] e.ev = "cover"    -> CoverKey(e)
                 [] e.ev = "validity" -> ValidityKey(e)
                 [] OTHER -> "trace/unknown-event"
 
-IsKL(e) == e.ev \in {"kl.reset", "kl.gen", "kl.export", "kl.import", "kl.sign", "kl.verify"}
+IsKL(e) == e.ev \in {"kl.reset", "kl.gen", "kl.provide", "kl.export", "kl.import", "kl.sign", "kl.verify"}
 klvars == <<hs, ts, ss, hist>>
 Bad(key) == MarkBad(l) /\ TLCSet(3, Append(TLCGet(3), key))
 
 KLStep(e) ==
   \/ e.ev = "kl.reset"  /\ hs' = <<>> /\ ts' = <<>> /\ ss' = <<>> /\ hist' = <<>>
   \/ e.ev = "kl.gen"    /\ KL!Generate(e.key)
+  \/ e.ev = "kl.provide" /\ KL!Provide(e.key)
   \/ e.ev = "kl.export" /\ KL!Export(e.h)
   \/ e.ev = "kl.import" /\ ~e.failed /\ KL!Import(e.t, e.api)
   \/ e.ev = "kl.import" /\ e.failed  /\ e.t \in 1..Len(ts) /\ Bad("keylife/import-fails:" \o e.alg) /\ UNCHANGED klvars   \* importing an exported text always succeeds
